@@ -1048,7 +1048,10 @@ class SyncObj(object):
                     self.__onBecomeLeader()
 
         if self.__raftState == _RAFT_STATE.LEADER:
-            if message['type'] == 'next_node_idx':
+            # An answer belongs to the leadership it was sent in: one that was on its way while this node
+            # lost the leadership and won it again says nothing about the follower's log now.
+            if message['type'] == 'next_node_idx' and \
+                    message.get('term', self.__raftCurrentTerm) == self.__raftCurrentTerm:
                 reset = message['reset']
                 nextNodeIdx = message['next_node_idx']
                 success = message['success']
@@ -1083,6 +1086,7 @@ class SyncObj(object):
             'next_node_idx': nextNodeIdx,
             'reset': reset,
             'success': success,
+            'term': self.__raftCurrentTerm,
         })
 
     def __generateRaftTimeout(self):
